@@ -5,7 +5,7 @@ import gen
 
 SYMS = [b"0", b"1", b"9", b"a", b"Z", b"~", b"+", b".", b"-", b":"]
 ALPHA = [bytes([c]) for c in b"0123456789abcxyzABZ.+~:-"]
-EPOCHS = [0, 1, 2, 2**31, 2**63 - 1]
+EPOCHS = [0, 1, 2, 2**31, 2**63 - 1, 2**63, 2**64 - 1]
 
 
 def vsign(r):
@@ -98,6 +98,30 @@ def run(chk):
             chk.violate({"kind": "property", "case": __import__("lib").show_case(c), "impl_sign": i, "policy_sign": sp,
                          "explanation": "sign(Compare(a,b)) differs from the Debian Policy order"})
     chk.extra["spec_checked_pairs"] = len(sub)
+    # epochs compare NUMERICALLY on every platform: where uint has 32 bits (harness built for GOARCH=386) two version texts whose
+    # epochs straddle 2^32 are either refused by Parse or ordered by their epochs - never by the epochs modulo 2^32
+    import lib
+    exe386 = lib.build_harness_386()
+    if exe386 is None:
+        chk.notes.append("no 32-bit harness could be built or run here: the GOARCH=386 epoch stream was skipped")
+    else:
+        rng = chk.rng
+        tc = []
+        for _ in range(chk.n(600, 12000)):
+            ea = rng.choice([0, 1, 2, 2**31, 2**32 - 1, 2**32, 2**32 + 1, 2**32 + 2, 2**33, rng.randrange(2**34)])
+            eb = rng.choice([0, 1, 2, 3, 2**31, 2**32 - 1, 2**32, 2**32 + 1, rng.randrange(2**34)])
+            tc.append(("vcmptext", [b"%d:1.0" % ea, b"%d:1.0" % eb]))
+        ti = lib.run_lines(exe386, tc)
+        chk.record("epochs-on-a-32-bit-platform", tc, ti, lambda c, r: r != "rejected")
+        for c, r in zip(tc, ti):
+            ea, eb = int(c[1][0].split(b":")[0]), int(c[1][1].split(b":")[0])
+            want = str((ea > eb) - (ea < eb))
+            if r != "rejected" and r != want:
+                chk.violate({"kind": "property", "case": lib.show_case(c), "impl_sign": r, "policy_sign": want, "platform": "GOARCH=386",
+                             "explanation": "on a platform with a 32-bit uint two versions were not ordered by their epochs (an epoch was reduced modulo 2^32)"})
+            if r == "rejected" and ea < 2**32 and eb < 2**32:
+                chk.violate({"kind": "property", "case": lib.show_case(c), "impl_sign": r, "platform": "GOARCH=386",
+                             "explanation": "a version whose epoch fits the Epoch field was refused"})
     # Slice.Less
     sub = cases[::11]
     lcases = [("vless", c[1]) for c in sub]
@@ -174,6 +198,11 @@ def dpkg_crosscheck(chk, cases):
 def replay(chk, d):
     import lib
     c = lib.case_from_replay(d)
+    if d.get("platform") == "GOARCH=386":
+        exe = lib.build_harness_386()
+        i = lib.run_lines(exe, [c])[0] if exe else "no-32-bit-harness"
+        print("impl (GOARCH=386):", i, "policy:", d.get("policy_sign"))
+        return 1 if i not in ("rejected", d.get("policy_sign")) else 0
     i = chk.run_impl([c])[0]
     sp = chk.run_model([("vkey", c[1])])[0]
     print("impl:", i, "policy:", sp)
